@@ -196,7 +196,7 @@ class Signals:
 
         def weakref_callback(weakref):  # pylint: disable=redefined-outer-name  # bad, but not changing API
             o = obj_weak()
-            if o:
+            if o is not None:  # the sender may be false in a boolean context (an empty list walker)
                 self.disconnect_by_key(o, name, key)
 
         user_args = self._prepare_user_args(weak_args, user_args, weakref_callback)
